@@ -2,6 +2,7 @@ import JmesVerif.Lemmas.Errors
 import JmesVerif.Model.Interp
 import JmesVerif.Lemmas.Positions
 import JmesVerif.Lemmas.Signature
+import JmesVerif.Generated.Vocab
 /-!
 # C12 — errors are classified and located truthfully
 
@@ -85,6 +86,19 @@ theorem C12_invalid_slice_offset (rt : Registry) (fuel : Nat) (d : Val) (o : Nat
 example : lineCol "a\néx.~".toList 6 = (1, 3) := by decide
 example : lineOf "a\néx".toList = 1 ∧ colOf "a\néx".toList = 2 := by decide
 
+
+/-! ### the error vocabulary (errors.rs:104, :122), re-extracted on every run: failures are `Parse` or `Runtime`, and the
+runtime kinds are exactly the model's -/
+theorem C12_error_vocabulary :
+    Generated.errorReasonFields = [("Parse", ["String"]), ("Runtime", ["RuntimeError"])]
+    ∧ Generated.runtimeErrorFields =
+        [("InvalidSlice", []), ("TooManyArguments", ["expected", "actual"]), ("NotEnoughArguments", ["expected", "actual"]),
+         ("UnknownFunction", ["String"]), ("InvalidType", ["expected", "actual", "position"]),
+         ("InvalidReturnType", ["expected", "actual", "position", "invocation"])]
+    ∧ (∀ e : RtErr, Generated.runtimeErrorVariant e ∈ Generated.runtimeErrorFields.map (·.1)) := by
+  refine ⟨rfl, rfl, ?_⟩
+  intro e; cases e <;> simp [Generated.runtimeErrorVariant, Generated.runtimeErrorFields]
+
 end JmesVerif
 
 #print axioms JmesVerif.C12_linecol
@@ -97,3 +111,4 @@ end JmesVerif
 #print axioms JmesVerif.C12_validate_error_offset
 #print axioms JmesVerif.C12_unknown_function_offset
 #print axioms JmesVerif.C12_invalid_slice_offset
+#print axioms JmesVerif.C12_error_vocabulary
